@@ -233,3 +233,66 @@ func Verif_C12_Reuse() {
 	second()
 	w.finish(keys, maxSteps+1)
 }
+
+//verif:entry tier=quick,thorough gosync steps=4000000 cover=drained,superseded,removedkey
+//verif:doc Drain: slots n=2 (quick) / 2..3 (thorough), pre-ticks < n; set a; 0..1 ticks; then one of: nothing / move a / remove a / remove a and set it again / set a again (new value); set b; 0..1 ticks; then drainAll: every timer that is still pending is delivered exactly once with its latest value, removed or already fired timers and superseded entries are not delivered.
+func Verif_C12_Drain() {
+	n := 2
+	if rt.Tier() > 0 {
+		n = 2 + rt.Choose("slots", 2)
+	}
+	maxSteps := 2*n + 1
+	w := c12New(n)
+	keys := []string{"a", "b"}
+	for i, pre := 0, rt.Choose("preticks", n); i < pre; i++ {
+		w.doTick(keys)
+	}
+	w.set("a", rt.Int64("v1"), maxSteps, "d1")
+	for i, t := 0, rt.Choose("t1", 2); i < t; i++ {
+		w.doTick(keys)
+	}
+	switch rt.Choose("second", 5) {
+	case 1:
+		w.move("a", maxSteps, "dm")
+		rt.Cover("superseded")
+	case 2:
+		w.remove("a")
+		rt.Cover("removedkey")
+	case 3:
+		w.remove("a")
+		w.set("a", rt.Int64("v2"), maxSteps, "d2")
+		rt.Cover("superseded")
+	case 4:
+		w.set("a", rt.Int64("v2"), maxSteps, "d2")
+	}
+	w.set("b", rt.Int64("vb"), maxSteps, "db")
+	for i, t := 0, rt.Choose("t2", 2); i < t; i++ {
+		w.doTick(keys)
+	}
+	type kv struct {
+		k string
+		v int64
+	}
+	var got []kv
+	w.tw.drainAll(func(k, v any) { got = append(got, kv{k.(string), v.(int64)}) })
+	for _, k := range keys {
+		cnt := 0
+		var val int64
+		for _, g := range got {
+			if g.k == k {
+				cnt++
+				val = g.v
+			}
+		}
+		if w.active[k] {
+			rt.Cover("drained")
+			rt.Assert(cnt == 1, "Drain delivers every pending timer exactly once")
+			rt.Assert(cnt != 1 || val == w.val[k], "Drain delivers the most recently set value")
+		} else {
+			rt.Assert(cnt == 0, "Drain delivers nothing for a removed or already fired timer")
+		}
+	}
+	for _, slot := range w.tw.slots {
+		rt.Assert(slot.Len() == 0, "after Drain no entry is left in the wheel")
+	}
+}
